@@ -866,12 +866,32 @@ func (txn *V2Transaction) EphemeralSiafundOutput(i int) SiafundElement {
 	}
 }
 
+// deepCopyPolicy returns a copy of p that does not alias any of its memory.
+func deepCopyPolicy(p SpendPolicy) SpendPolicy {
+	switch pt := p.Type.(type) {
+	case PolicyTypeThreshold:
+		pt.Of = slices.Clone(pt.Of)
+		for i := range pt.Of {
+			pt.Of[i] = deepCopyPolicy(pt.Of[i])
+		}
+		return SpendPolicy{Type: pt}
+	case PolicyTypeUnlockConditions:
+		pt.PublicKeys = slices.Clone(pt.PublicKeys)
+		for i := range pt.PublicKeys {
+			pt.PublicKeys[i].Key = slices.Clone(pt.PublicKeys[i].Key)
+		}
+		return SpendPolicy{Type: pt}
+	}
+	return p
+}
+
 // DeepCopy returns a copy of txn that does not alias any of its memory.
 func (txn *V2Transaction) DeepCopy() V2Transaction {
 	c := *txn
 	c.SiacoinInputs = slices.Clone(c.SiacoinInputs)
 	for i := range c.SiacoinInputs {
 		c.SiacoinInputs[i].Parent = c.SiacoinInputs[i].Parent.Copy()
+		c.SiacoinInputs[i].SatisfiedPolicy.Policy = deepCopyPolicy(c.SiacoinInputs[i].SatisfiedPolicy.Policy)
 		c.SiacoinInputs[i].SatisfiedPolicy.Signatures = slices.Clone(c.SiacoinInputs[i].SatisfiedPolicy.Signatures)
 		c.SiacoinInputs[i].SatisfiedPolicy.Preimages = slices.Clone(c.SiacoinInputs[i].SatisfiedPolicy.Preimages)
 	}
@@ -879,6 +899,7 @@ func (txn *V2Transaction) DeepCopy() V2Transaction {
 	c.SiafundInputs = slices.Clone(c.SiafundInputs)
 	for i := range c.SiafundInputs {
 		c.SiafundInputs[i].Parent = c.SiafundInputs[i].Parent.Copy()
+		c.SiafundInputs[i].SatisfiedPolicy.Policy = deepCopyPolicy(c.SiafundInputs[i].SatisfiedPolicy.Policy)
 		c.SiafundInputs[i].SatisfiedPolicy.Signatures = slices.Clone(c.SiafundInputs[i].SatisfiedPolicy.Signatures)
 		c.SiafundInputs[i].SatisfiedPolicy.Preimages = slices.Clone(c.SiafundInputs[i].SatisfiedPolicy.Preimages)
 	}
@@ -891,11 +912,18 @@ func (txn *V2Transaction) DeepCopy() V2Transaction {
 	c.FileContractResolutions = slices.Clone(c.FileContractResolutions)
 	for i := range c.FileContractResolutions {
 		c.FileContractResolutions[i].Parent = c.FileContractResolutions[i].Parent.Copy()
-		if res, ok := c.FileContractResolutions[i].Resolution.(*V2StorageProof); ok {
+		switch res := c.FileContractResolutions[i].Resolution.(type) {
+		case *V2StorageProof:
 			sp := *res
 			sp.ProofIndex = sp.ProofIndex.Copy()
 			sp.Proof = slices.Clone(sp.Proof)
 			c.FileContractResolutions[i].Resolution = &sp
+		case *V2FileContractRenewal:
+			r := *res
+			c.FileContractResolutions[i].Resolution = &r
+		case *V2FileContractExpiration:
+			e := *res
+			c.FileContractResolutions[i].Resolution = &e
 		}
 	}
 	c.Attestations = slices.Clone(c.Attestations)
@@ -903,6 +931,10 @@ func (txn *V2Transaction) DeepCopy() V2Transaction {
 		c.Attestations[i].Value = slices.Clone(c.Attestations[i].Value)
 	}
 	c.ArbitraryData = slices.Clone(c.ArbitraryData)
+	if c.NewFoundationAddress != nil {
+		a := *c.NewFoundationAddress
+		c.NewFoundationAddress = &a
+	}
 	return c
 }
 
